@@ -68,8 +68,14 @@ fn sun_grid(cw: &mut CaseWriter, step: f64, rng: &mut Rng, samples_for_model: us
     while lat <= 66.0 {
         let mut decl = -23.45;
         while decl <= 23.45 {
-            let mut ha = -179.5;
-            while ha < 180.0 {
+            // the grid, and the hour angles an implementation may single out: solar noon (exactly 0), six hours either side
+            let mut has: Vec<f64> = vec![0.0, 90.0, -90.0, 45.0, -45.0];
+            let mut hg = -179.5;
+            while hg < 180.0 {
+                has.push(hg);
+                hg += step;
+            }
+            for ha in has {
                 let r = sun_ref(decl, ha, lat);
                 if r.alt > 1.0 && r.alt < 88.0 {
                     n += 1;
@@ -104,7 +110,6 @@ fn sun_grid(cw: &mut CaseWriter, step: f64, rng: &mut Rng, samples_for_model: us
                         worst_inc = (di, json!({"lat": lat, "decl": decl, "ha": ha, "tilt": tilt, "az": saz, "impl": got, "ref": want}));
                     }
                 }
-                ha += step;
             }
             decl += step.min(23.45 / 4.0);
         }
